@@ -305,6 +305,12 @@ class Engine:
     def verify_function(self, qualname, max_paths=4000, on_path=None):
         """-> dict(obligations=[...], paths=n, unsupported=[...], ended=...)"""
         finfo = self.src.funcs.get(qualname)
+        if finfo is None and "::loop#" in qualname:
+            try:
+                finfo = self.src.fragment(qualname, list((self.contract_of(qualname) or {}).get("params", {"self": 1}).keys()))
+            except Exception as ex:
+                return dict(obligations=[], paths=0, unsupported=["fragment %s: %s" % (qualname, ex)], finfo=None,
+                            complete_paths=0)
         if finfo is None:
             return dict(obligations=[], paths=0, unsupported=["function %s not found in source" % qualname],
                         finfo=None, complete_paths=0)
@@ -400,8 +406,16 @@ class Engine:
             outcome = pe.exc.cls
             self.check_raise(I, st, fr, c, pe)
             return "raise:" + self.canon_class(outcome)
-        except (BreakSig, ContinueSig):
-            raise Unsupported("break/continue outside loop")
+        except BreakSig:
+            if "::loop#" not in qualname:
+                raise Unsupported("break outside loop")
+            st.ghost["loop_exit"] = ropes.const_seq("break")
+        except ContinueSig:
+            if "::loop#" not in qualname:
+                raise Unsupported("continue outside loop")
+            st.ghost["loop_exit"] = ropes.const_seq("continue")
+        if "::loop#" in qualname and "loop_exit" not in st.ghost:
+            st.ghost["loop_exit"] = ropes.const_seq("end")
         env = {"result": result}
         env.update({p: v for p, v in fr.entry_locals.items()})
         for lab, e in calls.labelled(c.get("ensures")):
